@@ -119,9 +119,9 @@ CONTRACTS = [
     ),
     # ------------------------------------------------------------------ C19 (callee of remove_nasty_arc)
     dict(
-        # ASSUMED, not verified here (breadth-first leaf sets over dict / list / union1d are outside the modelled subset): the score matrix has the
-        # accessor's shape, its entries are >= 0, and computing it modifies nothing.  The bounded tier (bounded/C19.py) checks shape, sign,
-        # 'positive only on arcs' and the value against an independent restatement of the scoring scheme on every generated graph it visits.
+        # The contract used at the call site in remove_nasty_arc.  Shape and sign are PROVED on the real function by the variant #shape-sign below; what is
+        # ASSUMED here is only the definitional clause: the table is a function (iscore) of the graph, the order and the two flags - i.e. the function is
+        # deterministic and reads nothing else (purity analysis, C20).  The numeric value of the scores is checked in the bounded tier (bounded/C19.py).
         name="dsw.graphized.calculate_intersection_score", assumed=True, n_loops=0,
         params={"latter_map": "dict", "observed_length": "nat", "has_insertion": "bool", "has_deletion": "bool", "verbose": "false"},
         requires={}, returns="mat(ipow(4, observed_length), 4)",
